@@ -138,15 +138,22 @@ class C03(Prop):
 
     @staticmethod
     def fix_cone_y(Ap, bp, lb, ub, y):
+        """lower y by a multiple of the all-ones vector until max_{x in box} y.(Ap x + bp) <= 0 holds EXACTLY
+        (captures are non-negative, so subtracting eps*1 lowers y.p(x) by eps*sum p(x) >= 0)"""
         m, n = Ap.shape
         Af = [[Fr(float(v)) for v in r] for r in Ap]; bf = [Fr(float(v)) for v in bp]
-        for it in range(60):
+        colsum = np.abs(Ap).sum(axis=0)
+        scale = max(1e-9, float(np.min(colsum * np.where(ub > 0, ub, 1.0))))
+        y = np.array(y, dtype=float)
+        eps = 0.0
+        for it in range(80):
             yf = [Fr(float(v)) for v in y]
             r = [sum(yf[j] * Af[j][i] for j in range(m)) for i in range(n)]
             mx = sum(yf[j] * bf[j] for j in range(m)) + sum(max(r[i] * Fr(float(lb[i])), r[i] * Fr(float(ub[i]))) for i in range(n))
             if mx <= 0:
                 return y
-            y = y - max(float(mx) * 2, 1e-12) / max(1e-9, float(np.min(np.abs(bp) + np.abs(Ap) @ lb + 1e-9)))
+            eps = max(2 * float(mx) / scale, eps * 2, 1e-300)
+            y = y - eps
         return y
 
     def emit(self, case, out):
